@@ -2,7 +2,9 @@
 
    (1) a generated fact about the Go source, regenerated on every run
        (gen/Effects.v): no package-level variable is written, address-taken or
-       passed to an external pointer-receiver method after initialisation, the
+       passed to an external pointer-receiver method after initialisation — neither
+       directly nor through a local variable or parameter that may alias a package-level
+       slice / map / pointer (flow-insensitive may-alias analysis across the package) —, the
        package imports only strings/bytes, and uses no go/chan/select/sync/
        unsafe/reflect/runtime/os/time;
    (2) the interleaving theorem for threads that share only immutable data,
